@@ -86,6 +86,8 @@ def v_read(v, path):
         if m <= n:
             if p == path[:m]:
                 out |= ls
+            elif n == DEPTH and m == DEPTH and p[0] == path[0]:
+                out |= ls       # second-level paths are not reliable (see v_sub)
         elif p[:n] == path:
             out |= ls
     for (i, pre) in v.s:
@@ -113,6 +115,11 @@ def v_sub(v, path):
         m = len(p)
         if m <= n:
             if p == path[:m]:
+                t[()] = t.get((), EMPTY) | ls
+            elif n == DEPTH and m == DEPTH and p[0] == path[0]:
+                # sibling at the second level: the second component of a truncated path is whatever came after the
+                # first field (a Box internal `pointer`, an element's `.0`, a real field), and writers and readers of
+                # one slice disagree on it. Field sensitivity is kept at the first level only.
                 t[()] = t.get((), EMPTY) | ls
         elif p[:n] == path:
             q = p[n:]
